@@ -50,13 +50,29 @@ CAP = 1024
 class WorldGen(wc.Gen):
     """per-world op generator of the world properties, restricted to the calling thread"""
 
-    def __init__(self, rng, malformed):
+    def __init__(self, rng, malformed, wid):
         super().__init__(rng, MIX, max_threads=1, malformed=malformed, lock_bias=0.06, shared=True)
         self.ref.threads = 0
         self.lines = []
+        self.wid = wid
 
     def thread(self):
         return 0
+
+    def any_handle(self):
+        """malformed stream: stale own handles, null, and patterns stamped with ANOTHER world's id (a raw pattern carrying
+        this world's id could coincide with a handle this world issues later - that is the business of C09, not of C17)"""
+        k = self.r.random()
+        if k < 0.45 and self.ref.n > 0:
+            return str(self.r.randrange(self.ref.n))
+        if k < 0.55:
+            return "null"
+        other = (self.wid + self.r.choice([1, 2, 3, 512, 1023])) % 1024
+        if k < 0.85:
+            v = self.r.randrange(0, 8) | (other << 30) | (self.r.randrange(0, 4) << 40)
+        else:
+            v = (self.r.getrandbits(64) & ~(0x3ff << 30)) | (other << 30)
+        return "raw:%x" % v
 
     def one(self):
         r = self.r
@@ -112,7 +128,7 @@ class ProcGen:
         else:
             wid = explicit_id
             self.emit("world new id=%d ctx=%s" % (wid, "shared" if shared else "own"))
-        self.live[self.n] = dict(id=wid, gen=WorldGen(self.r, self.malformed), shared=shared)
+        self.live[self.n] = dict(id=wid, gen=WorldGen(self.r, self.malformed, wid), shared=shared)
         self.cur = self.n
         self.n += 1
         self.created += 1
